@@ -30,6 +30,7 @@ CHECKS['C15'] = dict(
          dict(name='c15_conv2d_extend', src='harness/c15_conv2d_extend.cpp', deps=['harness/c15_common.hpp'])],
     runs=dict(
         quick=[dict(tu='c15_conv1d_int', group='gray8', bounds=_c15_q1, shards=2),
+               dict(tu='c15_conv1d_int', group='gray32s_inplace', bounds=_c15_q1, shards=3),
                dict(tu='c15_conv1d_int', group='rgb8', bounds=_c15_q1, shards=3),
                dict(tu='c15_conv1d_int', group='rgb8planar', bounds=_c15_q1, shards=4),
                dict(tu='c15_conv1d_flt', group='gray32f', bounds=_c15_q1, shards=2),
@@ -41,6 +42,7 @@ CHECKS['C15'] = dict(
                dict(tu='c15_conv2d_extend', group='extend_rgb8', bounds=dict(NE=4, E=2), shards=1),
                dict(tu='c15_conv2d_extend', group='extend_gray32f', bounds=dict(NE=4, E=2), shards=1)],
         thorough=[dict(tu='c15_conv1d_int', group='gray8', bounds=_c15_t1, shards=12),
+                  dict(tu='c15_conv1d_int', group='gray32s_inplace', bounds=_c15_t1, shards=12),
                   dict(tu='c15_conv1d_int', group='rgb8', bounds=_c15_t1, shards=24),
                   dict(tu='c15_conv1d_int', group='rgb8planar', bounds=_c15_t1, shards=36),
                   dict(tu='c15_conv1d_flt', group='gray32f', bounds=_c15_t1, shards=12),
@@ -52,7 +54,7 @@ CHECKS['C15'] = dict(
                   dict(tu='c15_conv2d_extend', group='extend_rgb8', bounds=dict(NE=7, E=4), shards=4),
                   dict(tu='c15_conv2d_extend', group='extend_gray32f', bounds=dict(NE=7, E=4), shards=2)]),
     witnesses_required=dict(all=_c15_opts + [
-        'correlate_rows', 'convolve_rows', 'correlate_cols', 'convolve_cols', 'fixed_kernel', 'dynamic_kernel',
+        'in_place_calls', 'correlate_rows', 'convolve_rows', 'correlate_cols', 'convolve_cols', 'fixed_kernel', 'dynamic_kernel',
         'border_outputs_checked', 'edge_replication_used', 'padding_read', 'image_narrower_than_kernel', 'empty_image',
         'size1_scalar_path', 'asymmetric_centre', 'integer_accumulator', 'float_accumulator', 'tolerance_compared',
         'exactly_compared', 'convolve_2d', 'conv2d_window_leaves_image', 'conv2d_off_centre', 'conv2d_empty_image',
